@@ -245,8 +245,21 @@ fn quote_sh(s: &str) -> String {
     format!("'{}'", s.replace('\'', "'\\''"))
 }
 
-/// Loops whose condition is not literally constant could run forever.
+/// Loops whose condition is not literally constant could run forever, and so
+/// could a function that calls itself.
 fn safe_to_execute(text: &str) -> bool {
+    let chars: Vec<char> = text.chars().collect();
+    for (i, c) in chars.iter().enumerate() {
+        if *c == '(' {
+            let mut j = i + 1;
+            while j < chars.len() && (chars[j].is_whitespace() || chars[j] == '\\') {
+                j += 1;
+            }
+            if j < chars.len() && chars[j] == ')' {
+                return false;
+            }
+        }
+    }
     let mut rest = text;
     while let Some(i) = rest.find("while") {
         let after = &rest[i + 5..];
@@ -267,14 +280,10 @@ fn safe_to_execute(text: &str) -> bool {
 }
 
 // ---------------------------------------------------------------------------
-// domain of the model (see coq/C17/Model.v `lex`, `decide` and Spec.v `left_merge`)
+// domain of the model (see coq/C17/Model.v `lex`, `decide`)
 
 fn is_model_blank(c: char) -> bool {
     matches!(c as u32, 9 | 11..=13 | 32 | 133 | 160 | 5760 | 8192..=8202 | 8232 | 8233 | 8239 | 8287 | 12288)
-}
-
-fn is_suffix(a: &[String], b: &[String]) -> bool {
-    a.len() <= b.len() && b[b.len() - a.len()..] == *a
 }
 
 /// Why the case is outside the domain, if it is.
@@ -287,15 +296,6 @@ fn outside(p: &Parsed, text: &str, table: &[AliasDef]) -> Option<&'static str> {
     // here-documents
     if buf.contains("<<") || text.contains("<<") {
         return Some("here-document");
-    }
-    for w in p.buffer.windows(2) {
-        let (x, y) = (&w[0], &w[1]);
-        if matches!(x.0, '&' | ';' | '<' | '>' | '|')
-            && matches!(y.0, '&' | ';' | '<' | '>' | '|' | '(' | '-')
-            && !is_suffix(&y.1, &x.1)
-        {
-            return Some("left-merge");
-        }
     }
     None
 }
@@ -312,23 +312,41 @@ fn emit(w: &mut CasesWriter, case: &Case) {
         }
     }
     let buf_text: String = p.buffer.iter().map(|x| x.0).collect();
-    // 3. the same text without aliases
-    let plain = if p.status == 0 { parse_with(&[], &buf_text) } else { Parsed::default() };
+    // 3. the same text without aliases (after a syntax error: the part the lexer
+    // had consumed; the command lines completed before the error must come out the same)
+    let plain = if p.status <= 1 { parse_with(&[], &buf_text) } else { Parsed::default() };
     let tree_plain = if p.status == 0 {
         if plain.status == 0 { plain.tree.clone() } else { format!("<error {}>", plain.error) }
     } else {
-        String::new()
+        plain.tree.clone()
     };
     // 4. execution
     let (trace_a, trace_p) = if case.exec && p.status == 0 && safe_to_execute(&buf_text) && safe_to_execute(&case.text) {
         let mut script = String::new();
         let mut direct = vec![];
+        // half of the executed cases also define and remove other aliases first
+        // (`alias` replaces a definition, `unalias` removes one)
+        let churn = case.text.len() % 2 == 0;
+        let extra: Vec<&str> =
+            NAMES.iter().copied().filter(|n| !case.table.iter().any(|a| a.name == *n)).collect();
+        if churn {
+            for n in &extra {
+                script.push_str(&format!("alias {n}='w JUNK '\n"));
+            }
+            w.count("executed-with-alias-churn");
+        }
         for a in &case.table {
             if a.global {
                 direct.push(a.clone());
             } else {
+                if churn {
+                    script.push_str(&format!("alias {}='w JUNK '\n", a.name));
+                }
                 script.push_str(&format!("alias {}={}\n", a.name, quote_sh(&a.value)));
             }
+        }
+        if churn && !extra.is_empty() {
+            script.push_str(&format!("unalias {}\n", extra.join(" ")));
         }
         script.push_str(&case.text);
         w.count("executed");
@@ -507,7 +525,7 @@ fn random_names(r: &mut Rng) -> (Vec<&'static str>, Vec<&'static str>) {
         names.reverse();
     }
     if r.chance(1, 10) {
-        names.push(*r.pick(&["if", "fi", "then", "x", "!", "{", "in", "do", "esac", "}"]));
+        names.push(*r.pick(&["if", "fi", "then", "x", "!", "{", "in", "do", "esac", "}", "in", "esac"]));
     }
     let mut pool: Vec<&'static str> = NAMES.to_vec();
     for _ in 0..3 {
@@ -539,6 +557,15 @@ fn simple_command(r: &mut Rng, names: &[&str]) -> String {
     if r.chance(1, 6) {
         let t = format!("{}={}", pick_s(r, &["v", "u"]), pick_s(r, &["1", "a", ""]));
         push(&mut s, t, r);
+    } else if r.chance(1, 12) {
+        let t = format!(
+            "{}=({}{}{})",
+            pick_s(r, &["v", "u"]),
+            atom(r, names),
+            pick_s(r, &[" ", "\n", "  "]),
+            atom(r, names)
+        );
+        push(&mut s, t, r);
     }
     if r.chance(1, 8) {
         let t = format!("{}{}{}", pick_s(r, &[">", "<", ">>", "2>"]), pick_s(r, &["", " "]), atom(r, names));
@@ -561,11 +588,21 @@ fn simple_command(r: &mut Rng, names: &[&str]) -> String {
 }
 
 fn command(r: &mut Rng, names: &[&str], depth: usize) -> String {
-    if depth == 0 || r.below(10) < 7 {
+    if depth == 0 || r.below(10) < 6 {
         return simple_command(r, names);
     }
     let d = depth - 1;
-    match r.below(11) {
+    match r.below(14) {
+        11 => format!("for {} in {} {}; do {}; done", atom(r, names), atom(r, names), atom(r, names), list(r, names, d)),
+        12 | 13 => format!(
+            "case {}{}in {}{}) {}{}esac",
+            atom(r, names),
+            blank(r),
+            pick_s(r, &["", "("]),
+            atom(r, names),
+            list(r, names, d),
+            pick_s(r, &[";; ", "\n", " ;; "])
+        ),
         7 => format!("for {} in {} {}; do {}; done", atom(r, names), atom(r, names), atom(r, names), list(r, names, d)),
         8 => format!("for {}{}do {}; done", atom(r, names), pick_s(r, &[" ", "; ", "\n"]), list(r, names, d)),
         9 => format!(
@@ -695,6 +732,45 @@ fn corpus() -> Vec<Case> {
         c(t(&[("if", "x", false), ("fi", "y", true)]), "if z; then v=1 if; fi\nx fi\n"),
         // empty value: the next word is in command position again
         c(t(&[("a", "", false), ("b", "x", false)]), "a b a\n"),
+        // a value that is just a blank, at the very beginning of the buffer
+        c(t(&[("a", " ", false), ("b", "y", false)]), "a b\n"),
+        c(t(&[("a", "\t", false), ("b", "y ", false), ("c", "z", false)]), "a b c\nx b c\n"),
+        // reserved words the parser asks for by name (take_token_auto's keyword list) are not aliases
+        c(t(&[("in", "y", true), ("a", "x ", false)]), "case a in x) z;; esac\n"),
+        c(t(&[("in", "y", false), ("a", "x ", false)]), "case a in x) z;; esac\ncase a \\\n in y) z;; esac\n"),
+        c(t(&[("esac", "y", true)]), "case x in (esac) z;; esac\n"),
+        c(t(&[("esac", "y", true), ("a", "x ", false)]), "case x in y) a esac;; esac\n"),
+        c(t(&[("in", "y", true), ("do", "z", true)]), "for x in in do; do x in do; done\n"),
+        // words of an array assignment, a for loop, case patterns; function definitions
+        c(t(&[("g", "w", true), ("a", "x ", false), ("b", "y", false)]), "v=(g a b b) g\nv=(a\nb g)\n"),
+        c(t(&[("g", "w", true), ("a", "x ", false), ("b", "y", false)]), "for g in g a b b; do g; done\n"),
+        c(t(&[("g", "w", true), ("a", "x ", false), ("b", "y", false)]), "case g in g | a) b;; (a b) ;; esac\n"),
+        c(t(&[("g", ")", true), ("a", "x", false)]), "a() { a; }\nb(g { a; }\n"),
+        // the body of a function definition may come out of an alias
+        c(t(&[("g", "{ x; }", true)]), "f() g\nf()\n\ng\n"),
+        c(t(&[("p", "f() ", false), ("b", "{ x; }", false), ("c", "( y )", false)]), "p b\np c; p\nb\n"),
+        c(t(&[("g", "{ x; }", false)]), "f() g\n"),
+        // longer cycles; the guard looks through every level of origins
+        c(t(&[("a", "b", false), ("b", "c", false), ("c", "d", false), ("d", "a", false)]), "a; b; c; d\n"),
+        c(t(&[("a", "b x", false), ("b", "c y ", false), ("c", "d z", false), ("d", "a b c d", false)]), "a a\nd\n"),
+        c(t(&[("a", "b", true), ("b", "c", true), ("c", "d", true), ("d", "a x", true)]), "w a >a\n"),
+        // the scan for a blank-ending alias passes over blanks of other origins
+        c(t(&[("b", "w ", false), ("a", " y", false), ("y", "z", false)]), "b a y y\n"),
+        c(t(&[("b", "w ", false), ("a", "", false), ("y", "z", false)]), "b a a y y\n"),
+        c(t(&[("b", "w\t", false), ("c", "x\u{a0}", false), ("y", "z", false)]), "b y y; c y y; b c y y\n"),
+        c(t(&[("b", "w ", false), ("y", "z", false)]), "b\t \\\n\\\n\t y y\nb 'y'; b \\y; b; y\n"),
+        c(t(&[("b", "w ", false), ("y", "z", false)]), "b >f y; b y >y; b | y y\n"),
+        c(t(&[("a", "b ", false), ("b", "c ", false), ("c", "w", false), ("y", "z", false)]), "a y y\nx a y\n"),
+        c(t(&[("a", "x b", false), ("b", "y ", false), ("c", "z", false)]), "a c c\n"),
+        c(t(&[("a", "b c", false), ("b", "y ", false), ("c", "z", false)]), "a c c\n"),
+        // several substitutions in one operand / word position (take_token_auto loops)
+        c(t(&[("a", "b", true), ("b", "c", true), ("c", "f", true)]), "x >a <b; for a in a b; do a; done\ncase a in a) ;; esac\nv=(a b)\n"),
+        c(t(&[("a", "x ", false), ("b", "c", false), ("c", "f", false)]), "a b b\n"),
+        // `=` in a value; a value that is an assignment followed by a command
+        c(t(&[("a", "v=1 u=2 x", false), ("x", "y=z w", false)]), "a a\n"),
+        // and-or lists, pipelines, negation, subshells, groups: every command start is a command position
+        c(t(&[("a", "x", false)]), "a && a || a | a; ! a & ( a; a ) | { a; a; }\na &&\na |\n\na\n"),
+        c(t(&[("a", "x", false)]), "if a; then a; elif a; then a; else a; fi; while false; do a; done; until true; do a; done\n"),
         // syntax errors
         c(t(&[("a", "if", false)]), "a x\n"),
         c(t(&[("a", "x )", false)]), "a y\n"),
@@ -714,7 +790,9 @@ fn check_blank_table() {
 /// Values of the bounded-exhaustive stream.
 const EXH_VALUES: [&str; 14] =
     ["", "a", "b ", "c", "x", "a x ", "b y", "if c; then", "fi", "|", "; b", "'a' ", ">f ", "c c "];
-const EXH_TEXTS: [&str; 6] = [
+const EXH_TEXTS: [&str; 8] = [
+    "for a in b c; do a; done\n",
+    "case a in b) c;; (a|b) c\nesac\n",
     "a b c\n",
     "v=1 a >b c; x c && b | a\n",
     "c a; fi; b\n",
@@ -782,7 +860,7 @@ fn real_main() {
         let (names, pool) = random_names(&mut r);
         let table = random_table(&mut r, &names, &pool);
         let text = random_text(&mut r, &pool);
-        let exec = if args.thorough() { k % 4 == 0 } else { k % 3 == 0 };
+        let exec = if args.thorough() { k % 2 == 0 } else { true };
         emit(&mut w, &Case { table, text, exec, origin: "random" });
     }
 
